@@ -46,7 +46,7 @@ def _case(draw, tier):
                                  "deleteobject", "storemetadata", "retrievemetadata", "deletemetadata", "getchecksum"]))
     c = {"cfg": cfg, "contents": [{"hex": "68656c6c6f20776f726c640d0a" * 3}, {"hex": ("c3a9" + "61" * 30) * 50}],
          "docs": [{"hex": "3c6d2f3e0d0a3c2f6d3e"}, {"hex": ("3c78" + "c3a9" + "2f3e") * 300}],
-         "ops": draw(st.lists(op, min_size=0, max_size=5)), "verb": verb, "pid": draw(st.sampled_from(PIDS + ["unknown"])),
+         "ops": draw(ops.history(op, 0, 5)), "verb": verb, "pid": draw(st.sampled_from(PIDS + ["unknown"])),
          "c": draw(st.integers(0, 1))}
     if verb == "storeobject":
         c["opts"] = draw(st.sets(st.sampled_from(["algo", "checksum", "checksum_algo", "obj_size"])).map(sorted))
